@@ -110,7 +110,9 @@ def _own_pool(r, t):
             out.append(V.gen_value(r, t, none_chance=0))
         return out
     if t == "net.ipv4.Subnet":
-        return [S("1.2.3.0/24"), S("10.0.0.0/8"), S("1.2.3.4"), S("0.0.0.0/0")]
+        return [S("1.2.3.0/24"), S("10.0.0.0/8"), S("1.2.3.4"), S("0.0.0.0/0"),
+                # prefix lengths an IPv4 network cannot have
+                S("10.1.2.3/33"), S("10.0.0.0/40"), S("1.2.3.4/99"), S("0.0.0.0/64")]
     for _ in range(4):
         out.append(V.gen_value(r, t, none_chance=0))
     return out
@@ -483,6 +485,12 @@ def _check_value(t, spec, o):
     if t == "net.ipv4.Address" and o[0] == "ipv4.address" and o[1].lstrip("-").isdigit():
         if not (0 <= int(o[1]) < 2 ** 32):
             return f"net.ipv4.Address field holds {o[1]}, not an IPv4 address"
+    if t == "net.ipv4.Subnet" and spec[0] == "str":
+        txt = dec_str(spec[1])
+        if "/" in txt:
+            bits = txt.rpartition("/")[2]
+            if bits.lstrip("-").isdigit() and not (0 <= int(bits) <= 32):
+                return f"net.ipv4.Subnet accepted {txt!r}: an IPv4 network has no prefix length {bits}"
     if t in ("net.ipaddress", "net.IPAddress") and o[0] == "ip":
         if not (0 <= int(o[3]) < (2 ** 32 if o[2] == 4 else 2 ** 128)):
             return "address out of range"
